@@ -388,7 +388,7 @@ Proof.
   intros Hm Hw. unfold end_tag.
   rewrite (starts_ci_lc (60 :: 47 :: n) (60 :: 47 :: nm)) by (cbn [map]; rewrite Hm; reflexivity).
   replace (2 + List.length n)%nat with (List.length (60 :: 47 :: nm)) by (cbn [List.length]; rewrite <- Hm, map_length; reflexivity).
-  rewrite skipn_len_app. rewrite (after_ws_ws ws _ _ Hw). cbn [List.length]. rewrite <- Hm, map_length. reflexivity.
+  rewrite skipn_len_app. rewrite (after_ws_ws ws _ _ Hw). reflexivity.
 Qed.
 
 (* locality of the end-tag test: once at least one byte lies before it, an opening angle bracket ends the examination *)
